@@ -136,12 +136,15 @@ def parse_block(lines):
     return r
 
 
-def run_impl(ctx, exe, cases, timeout=300):
+def run_impl(ctx, exe, cases, timeout=None):
     """-> list aligned with cases of dicts (parsed block) with extra keys crashed / detail"""
+    if timeout is None:
+        timeout = 150 + len(cases) // 2
     results = [None] * len(cases)
     index = {c["id"]: i for i, c in enumerate(cases)}
     start = 0
     guard = 0
+    crashes = 0
     while start < len(cases) and guard < len(cases) + 2:
         guard += 1
         inp = "".join(case_text(c) for c in cases[start:])
@@ -170,8 +173,16 @@ def run_impl(ctx, exe, cases, timeout=300):
         if bad is None:
             break
         results[bad] = {"status": "CRASH", "crashed": True,
-                        "detail": (r.sanitizer or ("timeout" if r.timed_out else (r.err[-600:] or "rc=%s" % r.rc)))}
+                        "detail": (r.sanitizer or ("timeout after %d s (hang)" % timeout if r.timed_out
+                                                   else (r.err[-600:] or "rc=%s" % r.rc)))}
         start = bad + 1
+        crashes += 1
+        if r.timed_out or crashes >= 5:
+            # a verdict exists already; do not pay one timeout per remaining case
+            for i in range(start, len(cases)):
+                if results[i] is None:
+                    results[i] = {"status": "SKIP", "crashed": False}
+            break
     for i, x in enumerate(results):
         if x is None:
             results[i] = {"status": "CRASH", "crashed": True, "detail": "no output for this case"}
@@ -319,7 +330,9 @@ def gen_spe(rng, cid, quick=True):
     half = N // 2
     nupd = rng.choice([1, 1, max(1, half // 2), max(1, half - 1), max(1, half), half + 1, N, 3 * N, 1000])
     maxiter = rng.choice([1, 2, 3, 5, 10, 20, 50])
-    umode = 0 if glob else rng.choice([0, 0, 0, 1, 2])
+    umode = 0 if glob else rng.choice([0, 0, 0, 1, 2, 3])
+    if umode == 3 and N > 8:
+        k = rng.choice([4, 8])            # u = m/8: u*k hits the integer boundaries of floor exactly
     nbm = rng.choice([0, 1, 2])
     return {"kind": "SPE", "id": cid, "N": N, "D": D, "d": d, "global": glob, "k": k, "nupd": nupd,
             "maxiter": maxiter, "tol": rng.choice([2.0 ** -20, 2.0 ** -10, 1e-5, 0.5]),
@@ -419,6 +432,8 @@ def eval_spe(ctx, exe, mexe, cases, st):
     res = run_impl(ctx, exe, cases)
     todo = []
     for c, r in zip(cases, res):
+        if r["status"] == "SKIP":
+            continue
         st.evals += 1
         st.count("SPE/" + ("global" if c["global"] else "local") + ("/bad" if c.get("bad") else "")
                  + ("/measure" if c.get("measure") else ""))
@@ -552,7 +567,7 @@ def eval_spe(ctx, exe, mexe, cases, st):
         if T >= 2 and nu >= 1:
             st.nontrivial.add(json.dumps([c["N"], c["global"], c["nupd"], c["maxiter"], c["shseed"], c["useed"], c["umode"]]))
         if len(st.samples) < 3:
-            st.samples.append({k2: pc[k2] for k2 in ("kind", "N", "D", "d", "global", "k", "nupd", "maxiter", "umode", "nbm")})
+            st.samples.append(pc)
 
 
     # the binary64 replay above is a transcription of spe_step: cross-check it against the EXTRACTED spe_step
@@ -608,6 +623,8 @@ def eval_pairs(ctx, exe, mexe, cases, st):
         pc = public(c)
         st.evals += 2
         st.count(c["kind"] + ("/exact" if c["exact"] else "/tolerance"))
+        if r0["status"] == "SKIP" or r1["status"] == "SKIP":
+            continue
         crashed = [r for r in (r0, r1) if r["crashed"] or r["status"] in ("GARBAGE", None)]
         if crashed:
             ctx.violation(pc, "%s run of the real library aborts / hangs / prints garbage: %s" % (
@@ -683,7 +700,7 @@ def eval_pairs(ctx, exe, mexe, cases, st):
         if c["kind"] == "FA" and c.get("replay_model") and finite and "A0" in r0:
             fa_replay.append((c, r0))
         if len(st.samples) < 6 and c["id"].endswith("0"):
-            st.samples.append({k2: pc[k2] for k2 in ("kind", "N", "D", "d", "exact", "shift")})
+            st.samples.append(pc)
     if rp_exact:
         text = []
         for c, r0, s in rp_exact:
@@ -742,12 +759,17 @@ def eval_moments(ctx, exe_plain, rng, st, reps):
     cases = []
     for i, (D, d) in enumerate([(4, 3), (16, 2), (9, 5)]):
         cases.append({"kind": "RPM", "id": "m%d" % i, "D": D, "d": d, "srand": rng.randrange(1 << 30),
-                      "reps": max(1, reps // (D * d)), "X": []})
+                      "reps": min(100000, max(1, reps // (D * d))), "X": []})
     res = run_impl(ctx, exe_plain, cases)
     for c, r in zip(cases, res):
         st.evals += 1
         st.count("RPM")
         pc = public(c)
+        if r["status"] == "SKIP":
+            continue
+        if r["status"] in ("BADINPUT", "BADCMD"):
+            ctx.note("harness refused the moments case %s (check bug, not a verdict)" % c["id"])
+            continue
         if r["crashed"] or "MOM" not in r:
             ctx.violation(pc, "gaussian_projection_matrix aborts or returns the wrong shape: " + str(r.get("detail", r.get("SHAPE")))[:400])
             continue
@@ -846,6 +868,7 @@ def run(ctx):
         raise box["err"]
     mexe = box["mexe"]
     st = Stats()
+    ctx.note("phase: Coq + extraction + both C++ builds done at %.1f s" % ctx.elapsed())
     budget = ({"spe": 260, "bad": 30, "gstress": 40, "lstress": 30, "rp": 60, "fa": 45, "reps": 120000,
                "fa_replay": [(4, 2, 1, 1), (8, 3, 2, 1), (4, 1, 1, 1), (8, 2, 1, 1), (4, 2, 1, 2), (2, 1, 1, 2)]} if quick else
               {"spe": 3000, "bad": 200, "gstress": 300, "lstress": 200, "rp": 600, "fa": 400, "reps": 2000000,
@@ -855,9 +878,12 @@ def run(ctx):
     corp = corpus_cases(ctx)
     st.hist["corpus"] = len(corp)
     eval_spe(ctx, exe, mexe, [c for c in corp if c["kind"] == "SPE"] + spe + bad, st)
+    ctx.note("phase: SPE index/coordinate cases done at %.1f s" % ctx.elapsed())
     eval_pairs(ctx, exe, mexe, [c for c in corp if c["kind"] in ("RP", "FA")] + pairs, st)
+    ctx.note("phase: RP/FA pairs and replays done at %.1f s" % ctx.elapsed())
     eval_spe(ctx, exe, mexe, meas, st)
     eval_moments(ctx, exe_plain, rng, st, budget["reps"])
+    ctx.note("phase: measured tests done at %.1f s" % ctx.elapsed())
     judge_measured(ctx, st)
     if ctx.is_unshown() and not ctx.has_violation():
         # search phase: the property is no longer shown; look for a concrete input violating the spec
